@@ -62,11 +62,25 @@ def snapshot(sid, name, args, coro_fn=False):
     return {"id": sid, "name": name, "args": list(args), "coroFn": coro_fn}
 
 
+def simple_sig(names, defaults):
+    d = dict(defaults)
+    return [{"name": n, "kind": "posOrKw", "default": d.get(n)} for n in names]
+
+
+def set_sig(case, sig):
+    """Install a signature; paramNames / kwdefaults are kept as derived conveniences for the harness."""
+    case["sig"] = sig
+    case["paramNames"] = [p["name"] for p in sig]
+    case["kwdefaults"] = [[p["name"], p["default"]] for p in sig if p.get("default") is not None]
+    return case
+
+
 def base_case(kind, async_, levels):
     pn, dfl = params_of(kind)
     args, kwargs = default_call(kind)
     return {
         "dom": "checker", "kind": kind, "async": async_, "fid": 1, "levels": levels,
+        "sig": simple_sig(pn, dfl),
         "paramNames": pn, "kwdefaults": dfl, "args": args, "kwargs": kwargs, "inProgress": [],
         "cond": [], "capture": [], "body": {"ret": {"v": 7}}, "fac": [], "msg": [],
     }
